@@ -26,10 +26,7 @@ typedef NS_OPTIONS(NSUInteger, {{ type_def.objc.name }}) {
     /*> if flag.none */
         {{- "0" -}}
     /*> elif flag.all */
-        {{- "0 | " -}}
-        /*> for flag in type_def.flags if not flag.none and not flag.all */
-            {{- type_def.objc.name ~ flag.objc.name ~ (" | " if not loop.last) -}}
-        /*> endfor */
+        {{- (2 ** (type_def.flags | rejectattr("none") | rejectattr("all") | list | length) - 1) ~ "u" -}}
     /*> else */
         {{- "1u << " ~ counter.value -}}
         /*> set counter.value = counter.value + 1 */
